@@ -44,6 +44,11 @@ if not hasattr(orch_core, "make_plan_bundle"):
 # ------------------------------------------------------------------ alphabet
 TURNS = [("T", a, x) for a in ("A", "B") for x in ("apple", "pear fig")]
 EDITS = [("RELABEL",), ("EDGE_W",), ("EDGE_DST",), ("EDGE_NEW",), ("EP", "A"), ("EP", "B")]
+# the graph evolution layer (observe / tick / merge / promotion) rewrites the GEL edge weights in state["graph"] between
+# turns; GEL_W is one such rewrite applied directly (asymmetric, so that a rerank that reads the edges changes order).
+# It is not a letter of the BFS alphabet (inert unless the hybrid rerank is on); the sweep leg runs [M, turn, GEL_W, turn]
+# under every mode entry M.
+GEL_EDIT = ("GEL_W",)
 CFGS = [("CFG", "k1"), ("CFG", "thr"), ("CFG", "rank"), ("CFG", "owner"), ("CFG", "days"), ("CFG", "radius"),
         ("CFG", "tiers"), ("CFG", "tiers_rev")]
 MISC = [("KILL",), ("CLK",), ("DAY",), ("HALFDAY",), ("SWITCH",), ("SCHED",)]
@@ -459,6 +464,11 @@ def execute(history, cache_cfg, caches_on, scratch, extra_off=None):
             elif kind == "EDGE_NEW":
                 k = len(st["store"].get_graph("g1").edges) + 1
                 st["store"].upsert_edges("g1", [Edge(id="x%d" % k, src="n3", dst="n1", weight=1.0, rel="supports")])
+            elif kind == "GEL_W":
+                ge = (st.get("graph") or {}).get("edges") or {}
+                for k_, w_ in (("ep1→ep2", -0.5), ("ep2→ep4", 0.75), ("ep1→ep4", 0.0)):
+                    if k_ in ge:
+                        ge[k_]["weight"] = (w_ if ge[k_]["weight"] != w_ else 0.25)
             elif kind == "EP":
                 k = len(st["mem_index"]._eps) + 1
                 st["mem_index"].add(W._ep("new%d" % k, op[1], "apple pear fig", 0.5, "c1", 1.0))
@@ -630,6 +640,11 @@ def _sweep_worker(chunk, st: Stats, scratch):
         if m is not None:
             base_off = _judge(pre + [t, t], cache_cfg, st, scratch)
             st.add("sweep_histories")
+            # the GEL layer's state is an input of the rerank: a rewrite of its edge weights between two turns
+            off_g = _judge(pre + [t, list(GEL_EDIT), t], cache_cfg, st, scratch)
+            st.add("sweep_histories")
+            if _stage_obs(off_g[-1]) != _stage_obs(base_off[-1]):
+                st.distinct("sweep_params_biting", "GEL_W under " + m)
         for p in params:
             h = pre + [t, ["CFG", p], t]
             off = _judge(h, cache_cfg, st, scratch)
